@@ -71,6 +71,27 @@ class C13(core.Check):
                     nontrivial = True
                 scale = 1.0
                 i = indlib.first_diff(s_part[:m], s_full[:m], rel=1e-9, scale=scale)
+                shaken = None
+                while i is not None:
+                    # a row decided by float rounding (0/0-like: a deviation of a flat window divided by its spread) differs
+                    # between two calls for reasons that have nothing to do with the data after the cut (NumPy's reductions
+                    # round differently at different array lengths / alignments).  Such a row shows itself when every
+                    # row's prices are moved by a relative 1e-13: if THAT moves the value by more than 1e-6, the row is
+                    # noise and is skipped (counted); the scan goes on behind it.
+                    if shaken is None:
+                        import numpy as np
+                        c2 = np.array(c[:k], dtype=float, copy=True)
+                        c2[:, 1:5] *= (1 + 1e-13 * np.random.RandomState(k).choice([-1.0, 1.0], size=(len(c2), 1)))
+                        st2, part2 = indlib.call(f, c2, True, kw)
+                        shaken = dict((n, indlib.as_series(v)) for n, v in indlib.fields(part2)) if st2 == 'ok' else {}
+                    s2 = shaken.get(fn)
+                    if s2 is not None and i < len(s2) and not isinstance(s_part[i], str) \
+                            and not indlib.same(s_part[i], s2[i], 1e-6, scale):
+                        cnt('noise-dominated-row-skipped')
+                        j = indlib.first_diff(s_part[i + 1:m], s_full[i + 1:m], rel=1e-9, scale=scale)
+                        i = None if j is None else i + 1 + j
+                        continue
+                    break
                 if i is not None and fn not in fails:
                     a, b = s_part[i], s_full[i]
                     fails[fn] = {'k': k, 'row': i, 'prefix_value': a, 'full_value': b}
